@@ -1,243 +1,12 @@
-(* C02 simulation, part 1: the thread-level invariant Rt (whoever is about to stop an instance has already
-   made the observer record the stop request) and its preservation by every step.  Used by RelC02b.v. *)
+(* C02 simulation: Rt is preserved by the stop / API steps (heavy, brute force). *)
 From Coq Require Import List ZArith NArith Bool Lia.
 From RecordUpdate Require Import RecordSet.
 From PC.Base Require Import Assoc.
-From PC.Sup Require Import Model Monitors Tactics Sim ObsFacts Effects RelCore LemC02.
+From PC.Sup Require Import Model Monitors Tactics Sim ObsFacts Effects RelCore LemC02 RelC02defs.
 Import ListNotations RecordSetNotations.
 
-(* ---- the restart decision table (process.go:284-316) ------------------------------------------------ *)
-Lemma restart_ok_spec stopped p c maxr restarts :
-  restart_ok stopped p c maxr restarts = true <->
-  stopped = false /\ policy_allows p c = true /\ (maxr = 0 \/ restarts < maxr).
-Proof.
-  unfold restart_ok, policy_allows.
-  destruct (Nat.eqb_spec maxr 0); destruct (Nat.ltb_spec restarts maxr); destruct stopped; destruct p;
-    destruct (c =? 0)%Z; cbn; split; try discriminate; try tauto; try lia;
-    intros (? & ? & ?); try discriminate; try lia.
-Qed.
-
-(* ---- stop requests recorded by the observer ---------------------------------------------------------- *)
-Definition sreq (o : obs) (i : iid) : Prop := o_stopreq (oi_get o i) = true.
-
-Lemma sreq_le o o' i : obs_le o o' -> sreq o i -> sreq o' i.
-Proof.
-  unfold sreq, oi_get. intros H. destruct (get i (oi o)) as [x|] eqn:E; [|discriminate].
-  destruct (H i x E) as (x' & -> & L). apply L.
-Qed.
-Lemma endst_le o o' i : obs_le o o' -> o_endst (oi_get o i) <> None -> o_endst (oi_get o' i) <> None.
-Proof.
-  unfold oi_get. intros H. destruct (get i (oi o)) as [x|] eqn:E; [|cbn; congruence].
-  destruct (H i x E) as (x' & -> & L). apply L.
-Qed.
-
-Section Rt.
+Section RtA.
 Context (cs : amap pconf).
-
-(* thread-level facts: whoever is about to stop an instance has already made the observer record the request *)
-Record Rt (s : sys) (o : obs) : Prop := mkRt {
-  rt_run : forall p, In p (running s) -> get (snd p) (insts s) <> None;
-  rt_reg : forall th n i, last_reg (get_thread s th) = Some (n, Some i) -> get i (insts s) <> None;
-  rt_apc : forall th i, (apc (get_thread s th) = AStopping i \/ exists n, apc (get_thread s th) = ARestartStopping n i) ->
-           get i (insts s) <> None;
-  rt_sd : forall t order i, sd_active s = Some (t, order) -> memN i order = true -> sreq o i;
-  rt_loop : forall th order rest i, dpc (get_thread s th) = DLoop order rest -> memN i rest = true -> sreq o i;
-  rt_ready : forall th i, spc (get_thread s th) = SReady i true -> sreq o i;
-  rt_spend : forall th i, spc (get_thread s th) = SPend i -> sreq o i;
-  rt_pend : forall th i, (pend (get_thread s th) = Some (RRunCtx i) -> sreq o i) /\
-                         (pend (get_thread s th) = Some (REndEarly i) -> sreq o i \/ o_endst (oi_get o i) <> None)
-}.
-
-Lemma Rt_init ord : Rt (init cs ord) (obs0 cs).
-Proof. constructor; cbn; try discriminate; try contradiction.
-  - intros th i [H|[n H]]; discriminate.
-  - intros th i. split; discriminate.
-Qed.
-
-Lemma Rt_obs_le s o o' : Rt s o -> obs_le o o' -> Rt s o'.
-Proof.
-  intros [H1 Ha Hb H2 H3 H4 H5 H6] L. constructor; eauto using sreq_le.
-  intros th i. destruct (H6 th i) as [A B]. split; [eauto using sreq_le|].
-  intros E. destruct (B E); [left|right]; eauto using sreq_le, endst_le.
-Qed.
-
-(* flush: the thread's pending release disappears, the rest of the thread records is untouched *)
-Lemma flush_get_thread th s th' :
-  get_thread (flush th s) th' = get_thread s th' \/
-  (th' = th /\ get_thread (flush th s) th' = get_thread s th <| pend := None |>).
-Proof.
-  unfold flush. destruct (get th (threads s)) as [t|] eqn:Et; [|now left].
-  destruct (pend t) as [r|] eqn:Ep; [|now left].
-  assert (E : forall X, get_thread (apply_release r X) th' = get_thread X th').
-  { intros X. destruct r; unfold apply_release; sup_simpl; try reflexivity; unfold get_thread;
-      autorewrite with sup; try reflexivity. destruct (code_set X); reflexivity. }
-  rewrite E. rewrite get_thread_set_thread. destruct (N.eqb_spec th th'); [right|now left].
-  subst. split; [reflexivity|]. unfold get_thread. now rewrite Et.
-Qed.
-
-Lemma flush_sd_active th s : sd_active (flush th s) = sd_active s.
-Proof.
-  unfold flush. destruct (get th (threads s)) as [t|]; [|reflexivity]. destruct (pend t) as [r|]; [|reflexivity].
-  destruct r; unfold apply_release; sup_simpl; try reflexivity. destruct (code_set _); reflexivity.
-Qed.
-
-Lemma Rt_flush th s o : Rt s o -> Rt (flush th s) o.
-Proof.
-  intros [H1 Ha Hb H2 H3 H4 H5 H6]. constructor.
-  - intros p Hp. rewrite flush_running in Hp. specialize (H1 p Hp).
-    pose proof (flush_insts th s (snd p)) as F. destruct (get (snd p) (insts s)); [|congruence].
-    destruct F as (x' & -> & _). discriminate.
-  - intros th' n i Hq. assert (Hx : get i (insts s) <> None).
-    { destruct (flush_get_thread th s th') as [E|[-> E]]; rewrite E in Hq; cbn in Hq; eapply Ha; eauto. }
-    pose proof (flush_insts th s i) as F. destruct (get i (insts s)); [|congruence]. destruct F as (x' & -> & _). discriminate.
-  - intros th' i Hq. assert (Hx : get i (insts s) <> None).
-    { destruct (flush_get_thread th s th') as [E|[-> E]]; rewrite E in Hq; cbn in Hq; eapply Hb; eauto. }
-    pose proof (flush_insts th s i) as F. destruct (get i (insts s)); [|congruence]. destruct F as (x' & -> & _). discriminate.
-  - intros t order i. rewrite flush_sd_active. apply H2.
-  - intros th' order rest i. destruct (flush_get_thread th s th') as [->|[-> ->]]; cbn; apply H3.
-  - intros th' i. destruct (flush_get_thread th s th') as [->|[-> ->]]; cbn; apply H4.
-  - intros th' i. destruct (flush_get_thread th s th') as [->|[-> ->]]; cbn; apply H5.
-  - intros th' i. destruct (flush_get_thread th s th') as [->|[-> ->]]; cbn; [apply H6|split; discriminate].
-Qed.
-
-(* ---- what single events make the observer record ---------------------------------------------------- *)
-Lemma sreq_intro o i x : get i (oi o) = Some x -> o_stopreq x = true -> sreq o i.
-Proof. intros E H. unfold sreq. now rewrite (oi_get_some _ _ _ E). Qed.
-
-Lemma refresh_stopreq o i : sreq o i -> sreq (refresh_succ o) i.
-Proof. apply sreq_le, obs_le_refresh. Qed.
-
-Lemma sreq_NoRestart o th i xo : get i (oi o) = Some xo -> sreq (obs_step cs o (th, ENoRestart i)) i.
-Proof.
-  intros E. unfold obs_step. cbn [ev_inst fst snd]. apply refresh_stopreq.
-  eapply sreq_intro; [rewrite oi_upd_get, N.eqb_refl; cbn; rewrite E; reflexivity|reflexivity].
-Qed.
-Lemma sreq_StopPending o th i xo : get i (oi o) = Some xo -> sreq (obs_step cs o (th, EStopPending i)) i.
-Proof.
-  intros E. unfold obs_step. cbn [ev_inst fst snd]. apply refresh_stopreq.
-  eapply sreq_intro; [rewrite oi_upd_get, N.eqb_refl; cbn; rewrite E; reflexivity|reflexivity].
-Qed.
-Lemma sreq_StopEnter o th i xo : get i (oi o) = Some xo -> sreq (obs_step cs o (th, EStopEnter i true)) i.
-Proof.
-  intros E. unfold obs_step. cbn [ev_inst fst snd]. apply refresh_stopreq.
-  eapply sreq_intro; [rewrite oi_upd_get, N.eqb_refl; cbn; rewrite E; reflexivity|cbn; apply orb_true_r].
-Qed.
-Lemma sreq_ShutdownOrder o th order i xo : get i (oi o) = Some xo -> memN i order = true ->
-  sreq (obs_step cs o (th, EShutdownOrder order)) i.
-Proof.
-  intros E M. unfold obs_step. cbn [ev_inst fst snd]. apply refresh_stopreq.
-  eapply sreq_intro.
-  - cbn. rewrite fold_oi_upd_get by reflexivity. rewrite M. cbn. rewrite E. reflexivity.
-  - reflexivity.
-Qed.
-Lemma endst_ProcEnd o th i s0 xo : get i (oi o) = Some xo ->
-  o_endst (oi_get (obs_step cs o (th, EProcEnd i s0)) i) <> None.
-Proof.
-  intros E. unfold obs_step. cbn [ev_inst fst snd]. unfold oi_get.
-  rewrite refresh_get, oi_upd_get, N.eqb_refl, E. cbn. destruct (_ && _); cbn; discriminate.
-Qed.
-
-(* ---- instances never disappear ----------------------------------------------------------------------- *)
-Definition has_inst (s : sys) (j : iid) : Prop := get j (insts s) <> None.
-Lemma has_upd_inst i f s j : has_inst s j -> has_inst (upd_inst i f s) j.
-Proof. unfold has_inst. rewrite insts_upd_inst. destruct (N.eqb i j); [|auto]. destruct (get j (insts s)); cbn; congruence. Qed.
-Lemma has_upd_vis n f s j : has_inst s j -> has_inst (upd_vis n f s) j.
-Proof. unfold has_inst. now rewrite upd_vis_insts. Qed.
-Lemma has_write_status n s0 s j : has_inst s j -> has_inst (write_status n s0 s) j.
-Proof. unfold has_inst. now rewrite write_status_insts. Qed.
-Lemma has_set_thread th t s j : has_inst s j -> has_inst (set_thread th t s) j.
-Proof. auto. Qed.
-Lemma has_fold_upd_inst (f : inst -> inst) l j : forall s, has_inst s j -> has_inst (fold_left (fun s i => upd_inst i f s) l s) j.
-Proof. induction l as [|a l IH]; intros s H; cbn; [exact H|]. apply IH, has_upd_inst, H. Qed.
-Lemma has_same_insts s s' j : insts s' = insts s -> has_inst s j -> has_inst s' j.
-Proof. unfold has_inst. now intros ->. Qed.
-
-Ltac has_tac :=
-  unfold set_pc, end_finish, end_release_early;
-  repeat first
-  [ assumption
-  | apply has_upd_inst | apply has_upd_vis | apply has_write_status | apply has_set_thread | apply has_fold_upd_inst
-  | match goal with
-    | |- has_inst (if ?b then _ else _) _ => destruct b
-    | |- has_inst (match ?b with _ => _ end) _ => destruct b
-    | |- has_inst (RecordSet.set _ _ ?X) _ => apply (has_same_insts X); [reflexivity|]
-    end ].
-
-Lemma in_set_inv {A} k (v : A) m p : In p (set k v m) -> p = (k, v) \/ In p m.
-Proof.
-  induction m as [|[k' v'] r IH]; cbn; [intros [<-|[]]; now left|].
-  destruct (N.eqb k' k); cbn; intros [<-|H]; auto. destruct (IH H); auto.
-Qed.
-Lemma in_del_inv {A} k (m : amap A) p : In p (del k m) -> In p m.
-Proof.
-  induction m as [|[k' v'] r IH]; cbn; [auto|]. destruct (N.eqb k' k); cbn; [auto|]. intros [<-|H]; auto.
-Qed.
-
-Lemma has_step s th e s' : step_core s th e = Some s' -> forall j, has_inst s j -> has_inst s' j.
-Proof.
-  intros H j Hj.
-  destruct (step_core_kind _ _ _ _ H) as [? ?|i x ? ? ? ? ? ?|H0|H0|H0|i s0 ? H0|i s0 b ? H0|H0|i ? H0|H0|H0]; subst; auto.
-  - destruct e; kind_cases H0; try has_tac.
-    unfold has_inst in *. cbn. rewrite get_set. destruct (N.eqb i j); [discriminate|exact Hj].
-  - destruct e; kind_cases H0; has_tac.
-  - destruct e; kind_cases H0; has_tac.
-  - kind_cases H0; has_tac.
-  - kind_cases H0; has_tac.
-  - destruct e; kind_cases H0; has_tac.
-  - kind_cases H0; has_tac.
-  - destruct e; kind_cases H0; has_tac.
-  - destruct e; kind_cases H0; has_tac.
-Qed.
-
-Definition ev_facts (o' : obs) (e : event) : Prop :=
-  match e with
-  | ENoRestart i | EStopPending i => sreq o' i
-  | EShutdownOrder order => forall i, memN i order = true -> sreq o' i
-  | EProcEnd i _ => o_endst (oi_get o' i) <> None
-  | _ => True
-  end.
-
-Ltac rt_thread th0 :=
-  autorewrite with sup;
-  match goal with
-  | |- context[N.eqb ?a th0] => destruct (N.eqb_spec a th0); [subst th0|]; cbn
-  | _ => idtac
-  end.
-
-Ltac rt_pre :=
-  repeat match goal with
-  | |- Rt (match ?x with _ => _ end) _ => destruct x eqn:?
-  | |- Rt (if ?b then _ else _) _ => destruct b eqn:?
-  | |- Rt ?S _ => match S with context[if ?b then _ else _] => destruct b eqn:? end
-  end.
-Ltac rt_norm := unfold set_pc, end_finish, end_release_early.
-Ltac rt_direct H1 Ha Hb H2 H3 H4 H5 H6 Hh :=
-  constructor;
-  [ let p0 := fresh "p" in let Hp0 := fresh "Hp" in
-    intros p0 Hp0; unfold set_pc, end_finish, end_release_early in Hp0; autorewrite with sup in Hp0; cbn in Hp0; autorewrite with sup in Hp0; try (apply Hh, H1, Hp0)
-  | let th0 := fresh "th" in let n0 := fresh "n" in let i0 := fresh "i" in let Hq := fresh "Hq" in
-    intros th0 n0 i0 Hq; apply (Hh i0); revert Hq; rt_norm; rt_thread th0; try apply Ha; try discriminate
-  | let th0 := fresh "th" in let i0 := fresh "i" in let Hq := fresh "Hq" in
-    intros th0 i0 Hq; apply (Hh i0); revert Hq; rt_norm; rt_thread th0; try apply Hb; try (intros [Hq|[? Hq]]; discriminate)
-  | let t0 := fresh "t" in let order0 := fresh "order" in let i0 := fresh "i" in
-    intros t0 order0 i0; rt_norm; autorewrite with sup; cbn; try apply H2; try discriminate
-  | let th0 := fresh "th" in let order0 := fresh "order" in let rest0 := fresh "rest" in let i0 := fresh "i" in
-    intros th0 order0 rest0 i0; rt_norm; rt_thread th0; try apply H3; try discriminate
-  | let th0 := fresh "th" in let i0 := fresh "i" in
-    intros th0 i0; rt_norm; rt_thread th0; try apply H4; try discriminate
-  | let th0 := fresh "th" in let i0 := fresh "i" in
-    intros th0 i0; rt_norm; rt_thread th0; try apply H5; try discriminate
-  | let th0 := fresh "th" in let i0 := fresh "i" in
-    intros th0 i0; rt_norm; rt_thread th0; try apply H6; try (split; discriminate) ].
-
-
-Lemma thread_reg_some (P : iid -> Prop) t n i :
-  (forall n i, last_reg t = Some (n, Some i) -> P i) ->
-  opt_eqb (opt_eqb N.eqb) (thread_reg t n) (Some (Some i)) = true -> P i.
-Proof.
-  intros Ha H. unfold thread_reg in H. destruct (last_reg t) as [[k2 r]|] eqn:E; [|discriminate].
-  destruct (N.eqb k2 n); [|discriminate]. cbn in H. apply opt_eqb_N_eq in H. subst r. eapply Ha; eauto.
-Qed.
 
 Lemma Rt_step_stop s o th e s' : Rt s o -> ev_facts o e -> (forall j, has_inst s j -> has_inst s' j) ->
   step_stop s th e = Some s' -> Rt s' o.
@@ -270,110 +39,4 @@ Proof.
     eapply (thread_reg_some (has_inst s)); [apply Ha|eassumption].
 Qed.
 
-Lemma Rt_step_state s o th i s0 s' : Rt s o -> (forall j, has_inst s j -> has_inst s' j) ->
-  step_state s th i s0 = Some s' -> Rt s' o.
-Proof.
-  intros HRt Hh H. pose proof HRt as [H1 Ha Hb H2 H3 H4 H5 H6].
-  kind_cases H; split_andb; subst; rt_pre; rt_direct H1 Ha Hb H2 H3 H4 H5 H6 Hh.
-Qed.
-
-Lemma Rt_step_procend s o th i s0 (b : bool) s' : Rt s o -> ev_facts o (if b then EProcEnd i s0 else EProcEnded i s0) ->
-  (forall j, has_inst s j -> has_inst s' j) ->
-  step_procend s th i s0 b = Some s' -> Rt s' o.
-Proof.
-  intros HRt Hev Hh H. pose proof HRt as [H1 Ha Hb H2 H3 H4 H5 H6].
-  kind_cases H; cbn in Hev; split_andb; subst; rt_pre; rt_direct H1 Ha Hb H2 H3 H4 H5 H6 Hh.
-  all: split; [discriminate|intros [= <-]; right; exact Hev].
-Qed.
-
-Lemma same_members_in l1 : forall l2 a, same_members l1 l2 = true -> In a l1 -> In a l2.
-Proof.
-  induction l1 as [|b r IH]; intros l2 a H Ha; [destruct Ha|].
-  cbn in H. apply andb_true_iff in H. destruct H as [Hb Hr]. destruct Ha as [<-|Ha].
-  - now apply memN_In.
-  - specialize (IH _ _ Hr Ha). unfold removeN in IH. apply filter_In in IH. apply IH.
-Qed.
-
-Lemma Rt_step_shutdown s o th e s' : Rt s o -> ev_facts o e -> (forall j, has_inst s j -> has_inst s' j) ->
-  step_shutdown s th e = Some s' -> Rt s' o.
-Proof.
-  intros HRt Hev Hh H. pose proof HRt as [H1 Ha Hb H2 H3 H4 H5 H6].
-  destruct e; kind_cases H; cbn in Hev; split_andb; subst; rt_pre; rt_direct H1 Ha Hb H2 H3 H4 H5 H6 Hh.
-  all: try (intros [= <- <-]; apply Hev).
-  intros Hq. apply (Hb th). destruct (apc (get_thread s th)); try exact Hq; destruct Hq as [Hq|[? Hq]]; discriminate.
-Qed.
-
-Lemma Rt_step_ordered s o th i s' : Rt s o -> (forall j, has_inst s j -> has_inst s' j) ->
-  step_ordered_go s th i = Some s' -> Rt s' o.
-Proof.
-  intros HRt Hh H.
-  kind_cases H; split_andb. pose proof HRt as [H1 Ha Hb H2 H3 H4 H5 H6]. rt_pre; rt_direct H1 Ha Hb H2 H3 H4 H5 H6 Hh.
-  intros [= <-]. eapply H2; eauto.
-Qed.
-
-Lemma Rt_step_env s o th e s' : Rt s o -> (forall j, has_inst s j -> has_inst s' j) ->
-  step_env s th e = Some s' -> Rt s' o.
-Proof.
-  intros HRt Hh H. pose proof HRt as [H1 Ha Hb H2 H3 H4 H5 H6].
-  destruct e; kind_cases H; split_andb; subst; rt_pre; rt_direct H1 Ha Hb H2 H3 H4 H5 H6 Hh.
-Qed.
-
-Lemma Rt_step_own s o th e s' : Rt s o -> (forall j, has_inst s j -> has_inst s' j) ->
-  step_own s th e = Some s' -> Rt s' o.
-Proof.
-  intros HRt Hh H. pose proof HRt as [H1 Ha Hb H2 H3 H4 H5 H6].
-  destruct e; kind_cases H; split_andb; subst; rt_pre; rt_direct H1 Ha Hb H2 H3 H4 H5 H6 Hh.
-Qed.
-
-Lemma Rt_step_reg s o th e s' : Rt s o -> (forall j, has_inst s j -> has_inst s' j) ->
-  step_reg s th e = Some s' -> Rt s' o.
-Proof.
-  intros HRt Hh H. pose proof HRt as [H1 Ha Hb H2 H3 H4 H5 H6].
-  destruct e; kind_cases H; split_andb; subst; rt_pre; rt_direct H1 Ha Hb H2 H3 H4 H5 H6 Hh.
-  - cbn. destruct (in_set_inv _ _ _ _ Hp) as [->|Hp']; [cbn; congruence|apply H1, Hp'].
-  - cbn. apply H1. eapply in_del_inv, Hp.
-  - intros [= <- ->]. match goal with Hf : opt_eqb N.eqb _ _ = true |- _ => apply opt_eqb_N_eq in Hf; symmetry in Hf; apply get_in in Hf end.
-    match goal with Hf : In _ _ |- _ => apply (H1 _ Hf) end.
-(*STOP*)
-Qed.
-
-Lemma Rt_step_core s o th e s' : Rc cs s o -> Rt s o -> step_core s th e = Some s' -> Rt s' (obs_step cs o (th, e)).
-Proof.
-  intros HRc HRt H.
-  assert (Hle : obs_le o (obs_step cs o (th, e))).
-  { apply obs_step_le. intros i n ->. cbn in H. unfold step_reg in H. break_step H.
-    apply negb_true_iff in E0. unfold has in E0. destruct (get i (insts s)) eqn:Ei; [discriminate|].
-    eapply rc_noinst; eauto. }
-  assert (Hoi : forall i, get i (insts s) <> None -> exists xo, get i (oi o) = Some xo).
-  { intros i Hi. destruct (get i (insts s)) as [x|] eqn:Ex; [|congruence].
-    destruct (rc_inst _ _ _ HRc _ _ Ex) as (xo & Exo & _). eauto. }
-  assert (Hev : ev_facts (obs_step cs o (th, e)) e).
-  { destruct e; cbn [ev_facts]; auto.
-    - (* EProcEnd *) cbn in H. unfold step_procend in H. destruct (get i (insts s)) as [x|] eqn:Ex; [|discriminate].
-      destruct (Hoi i) as (xo & Exo); [congruence|]. eapply endst_ProcEnd; eauto.
-    - (* ENoRestart *) cbn in H. unfold step_api in H.
-      destruct (Hoi i) as (xo & Exo); [|eapply sreq_NoRestart; eauto].
-      apply (rt_apc _ _ HRt th). break_step H; split_andb; subst; eauto.
-    - (* EStopPending *) cbn in H. unfold step_stop in H. destruct (get i (insts s)) as [x|] eqn:Ex; [|discriminate].
-      destruct (Hoi i) as (xo & Exo); [congruence|]. eapply sreq_StopPending; eauto.
-    - (* EShutdownOrder *) intros i Hm. pose proof Hm as Hi. cbn in H. unfold step_shutdown in H. break_step H.
-      apply memN_In in Hi. apply (same_members_in _ _ _ E0) in Hi. apply in_map_iff in Hi. destruct Hi as (p & Ep & Hp).
-      destruct (Hoi i) as (xo & Exo); [rewrite <- Ep; apply (rt_run _ _ HRt _ Hp)|].
-      eapply sreq_ShutdownOrder; eauto. }
-  pose proof (has_step _ _ _ _ H) as Hh.
-  pose proof (Rt_obs_le _ _ _ HRt Hle) as HRt'.
-  destruct (step_core_kind _ _ _ _ H) as [? ?|i x ? ? ? ? ? ?|H0|H0|H0|i s0 ? H0|i s0 b ? H0|H0|i ? H0|H0|H0]; subst;
-    eauto using Rt_step_reg, Rt_step_api, Rt_step_stop, Rt_step_state, Rt_step_shutdown, Rt_step_ordered, Rt_step_env, Rt_step_own.
-  - destruct HRt' as [G1 Ga Gb G2 G3 G4 G5 G6]. constructor; auto.
-  - eapply Rt_step_procend; eauto.
-Qed.
-
-Lemma Rt_step s o th e s' : Rc cs s o -> Rt s o -> step s (th, e) = Some s' -> Rt s' (obs_step cs o (th, e)).
-Proof.
-  intros HRc HRt H. unfold step in H. cbn [fst snd] in H.
-  eapply Rt_step_core; [|apply Rt_flush, HRt|exact H].
-  eapply Rc_sys_same; [exact HRc|apply sys_same_flush].
-Qed.
-
-
-End Rt.
+End RtA.
